@@ -24,6 +24,7 @@ import (
 	"os"
 	"path"
 	"path/filepath"
+	"sort"
 	"strings"
 
 	"github.com/pkg/errors"
@@ -135,7 +136,15 @@ func (cfg *Configuration) renderResources(ch *chart.Chart, values chartutil.Valu
 	// look for terminating NOTES.txt. We also remove it from the files so that we don't have to skip
 	// it in the sortHooks.
 	var notesBuffer bytes.Buffer
-	for k, v := range files {
+	// Visit the files in sorted order so that the notes of several charts are
+	// always concatenated in the same order.
+	fileNames := make([]string, 0, len(files))
+	for k := range files {
+		fileNames = append(fileNames, k)
+	}
+	sort.Strings(fileNames)
+	for _, k := range fileNames {
+		v := files[k]
 		if strings.HasSuffix(k, notesFileSuffix) {
 			if subNotes || (k == path.Join(ch.Name(), "templates", notesFileSuffix)) {
 				// If buffer contains data, add newline before adding more
@@ -159,8 +168,9 @@ func (cfg *Configuration) renderResources(ch *chart.Chart, values chartutil.Valu
 		//
 		// We return the files as a big blob of data to help the user debug parser
 		// errors.
-		for name, content := range files {
-			if strings.TrimSpace(content) == "" {
+		for _, name := range fileNames {
+			content, ok := files[name]
+			if !ok || strings.TrimSpace(content) == "" {
 				continue
 			}
 			fmt.Fprintf(b, "---\n# Source: %s\n%s\n", name, content)
